@@ -1157,7 +1157,7 @@ def run(ctx):
     ns = core.NCPU
     jobs = []
     depths = {"full": ctx.n(3, 4), "small": ctx.n(4, 5), "three": ctx.n(4, 5),
-              "deep": ctx.n(5, 7)}
+              "deep": ctx.n(5, 6)}
     for which in ("full", "small", "three", "deep"):
         for s in range(ns):
             jobs.append(("w_exhaustive", (which, depths[which], s, ns)))
@@ -1166,7 +1166,7 @@ def run(ctx):
         jobs.append(("w_random_seq", (core.derive_seed(ctx.seed, "seq", s), nseq // ns, s)))
     for s in range(ns):
         jobs.append(("w_enum_docs", (s, ns)))
-    ndoc = ctx.n(3200, 40000)
+    ndoc = ctx.n(3200, 32000)
     for s in range(ns):
         jobs.append(("w_random_docs", (core.derive_seed(ctx.seed, "doc", s), ndoc // ns)))
     by_fn = {}
